@@ -754,6 +754,16 @@ func runDeep(c *hx.Ctx, k deepCase) {
 		err error
 	}
 	var viaReader, viaResolver, again result
+	// one long-lived resolver through the package's own entry points (no Reset between
+	// calls): the deep resolution of object 1 - refused beyond the limit and on a cycle -
+	// and then objects of the same file, each also as the first lookup of a fresh resolver
+	type later struct {
+		name        string
+		want        string // by the logical file; "" = only compared with the fresh resolver
+		after, solo string
+	}
+	var laters []later
+	firstLong := ""
 	opened := false
 	if !c.Guard("C04", k, 30, func() {
 		rd, err := reader.Open(path)
@@ -767,6 +777,73 @@ func runDeep(c *hx.Ctx, k deepCase) {
 		res := resolver.NewResolver(rd)
 		viaResolver.obj, viaResolver.err = res.ResolveReferenceDeep(ref)
 		again.obj, again.err = rd.ResolveDeep(ref) // warm caches, a second call on the same reader
+		long := resolver.NewResolver(rd)
+		// (the value of a shared graph has 2^L paths: never rendered)
+		if _, err := long.ResolveDeep(ref); err != nil {
+			firstLong = "error: " + err.Error()
+			if len(firstLong) > 160 {
+				firstLong = firstLong[:60] + " … " + firstLong[len(firstLong)-90:]
+			}
+		} else {
+			firstLong = "answered"
+		}
+		asked := map[string]bool{}
+		ask := func(name, want string, f func(*resolver.ObjectResolver) (core.Object, error)) {
+			if asked[name] {
+				return
+			}
+			asked[name] = true
+			l := later{name: name, want: want}
+			l.after = full(f(long))
+			l.solo = full(f(resolver.NewResolver(rd)))
+			laters = append(laters, l)
+		}
+		stored := func(n int) string { // the newest value of object n as the file stores it
+			switch {
+			case k.Deep == "cycle" && n == 1:
+				return fmt.Sprintf("{Kids:[2R],V:i%d}", k.V)
+			case k.Deep == "cycle":
+				return fmt.Sprintf("{Parent:1R,V:i%d}", k.V+1)
+			case n == k.L:
+				return fmt.Sprintf("[i%d]", leaf)
+			case k.Deep == "shared":
+				return fmt.Sprintf("[%dR,%dR]", n+1, n+1)
+			}
+			return fmt.Sprintf("[%dR]", n+1)
+		}
+		last := k.L
+		for _, n := range []int{1, 2, (k.L + 1) / 2, last - 1, last} {
+			if n < 1 || n > last {
+				continue
+			}
+			n := n
+			r := core.IndirectRef{Number: n}
+			ask(fmt.Sprintf("Resolve(%d 0 R)", n), stored(n), func(x *resolver.ObjectResolver) (core.Object, error) { return x.Resolve(r) })
+			ask(fmt.Sprintf("GetObjectResolved(%d)", n), stored(n), func(x *resolver.ObjectResolver) (core.Object, error) { return x.GetObjectResolved(n) })
+		}
+		if k.Deep != "cycle" {
+			deepLeaf := fmt.Sprintf("[i%d]", leaf)
+			lr := core.IndirectRef{Number: last}
+			ask(fmt.Sprintf("ResolveDeep(%d 0 R)", last), deepLeaf, func(x *resolver.ObjectResolver) (core.Object, error) { return x.ResolveDeep(lr) })
+			ask(fmt.Sprintf("ResolveReferenceDeep(%d 0 R)", last), deepLeaf, func(x *resolver.ObjectResolver) (core.Object, error) { return x.ResolveReferenceDeep(lr) })
+			if last >= 2 {
+				want := "[" + deepLeaf + "]"
+				if k.Deep == "shared" {
+					want = "[" + deepLeaf + "," + deepLeaf + "]"
+				}
+				pr := core.IndirectRef{Number: last - 1}
+				ask(fmt.Sprintf("ResolveDeep(%d 0 R)", last-1), want, func(x *resolver.ObjectResolver) (core.Object, error) { return x.ResolveDeep(pr) })
+			}
+		}
+		// the refused resolution once more, and the start of the refused path after it
+		ask("ResolveDeep(1 0 R) again", "", func(x *resolver.ObjectResolver) (core.Object, error) {
+			_, err := x.ResolveDeep(ref)
+			if err != nil {
+				return nil, err
+			}
+			return core.Int(0), nil // answered: the value itself is checked above, through the wrappers
+		})
+		ask("Resolve(1 0 R) at the end", stored(1), func(x *resolver.ObjectResolver) (core.Object, error) { return x.Resolve(ref) })
 	}) {
 		return
 	}
@@ -778,6 +855,21 @@ func runDeep(c *hx.Ctx, k deepCase) {
 	c.Check("C04/answer-depends-on-earlier-lookups", same, k, func() string {
 		return fmt.Sprintf("ResolveDeep(1 0 R) first err=%v, again on the same reader err=%v", viaReader.err, again.err)
 	})
+	for _, l := range laters {
+		l := l
+		c.Check("C04/answer-depends-on-earlier-lookups", l.after == l.solo, k, func() string {
+			return fmt.Sprintf("one resolver: ResolveDeep(1 0 R) [= %s], …, then %s = %s, but %s as the first lookup of a fresh resolver on the same reader", firstLong, l.name, l.after, l.solo)
+		})
+		if l.want != "" {
+			key := "C04/lookup-value-not-as-stored"
+			if strings.Contains(l.name, "Deep") {
+				key = "C04/deep-resolve-newest-revision"
+			}
+			c.Check(key, l.solo == l.want, k, func() string {
+				return fmt.Sprintf("%s on a fresh resolver = %s, the file holds %s", l.name, l.solo, l.want)
+			})
+		}
+	}
 	nontrivial := false
 	switch k.Deep {
 	case "chain", "shared":
